@@ -4,10 +4,10 @@
 import json, subprocess
 
 BUILT = {
- "C19": ("exploration", "reference conversion (encoding/csv configured like the importer + independent type conversion) vs the real colDataTypes/doBatchInsert driven in-package (go test -overlay): event accounting in arrival order and stored rows read back",
+ "C19": ("exploration", "reference conversion (encoding/csv configured like the importer + independent type conversion) vs the real makeConfig/colDataTypes/doBatchInsert driven in-package (go test -overlay): event accounting in arrival order and stored rows read back",
          "Held on the streams explored: all four destination types, mappings, separators, NULL markers, short records, bad quoting, unparsable / out-of-range numbers, oversized rows.",
          "what a record is, is decided by encoding/csv; canonical number spellings only"),
- "C20": ("exploration", "typed vs submitted statements compared as token sequences (real SQL tokenizer) on the real Terminal.ReadLine driven in-package (go test -overlay)",
+ "C20": ("exploration", "typed vs submitted statements compared as token sequences (real SQL tokenizer) on the real Terminal.ReadLine driven in-package (go test -overlay); plus whole console sessions end to end: the console's runTerminal on a pseudo-terminal with a real Session, effects read back from the database",
          "Held on the keystroke streams explored: 1-8 statements, line breaks at token boundaries, several statements per line, literals with semicolons / other quotes / spaces, three delivery modes incl. chunks that split UTF-8 sequences.",
          "no line break inside a literal; lines under the terminal's 4096-rune buffer"),
  "C13": ("exploration", "(a) Go race detector on a -race build with the real flush timer and sleep-only handlers that park statements across > 2 ticks; (b) offline checker over a hook event log (goroutine ids): no foreign page/header write inside a statement's change window",
@@ -22,8 +22,8 @@ BUILT = {
  "C10": ("exploration", "generated statement tree vs the neutral form of the parsed statement (AND/OR chains flattened), four renderings per tree",
          "Held on the trees explored over the whole grammar; every AND/OR shape up to 5 predicates enumerated; every list kind with >= 3 elements.",
          "literals without quote/backslash/newline; positions not compared"),
- "C18": ("exploration", "recover() around Session.ExecQuery in child processes, over type-confused statement families and four session states",
-         "Held on the statements explored (thousands per run, every family in every session state).",
+ "C18": ("exploration", "recover() around Session.ExecQuery in child processes, over type-confused statement families and four session states; plus sessions against the real 100 ms flush goroutine with statements held open by sleep-only hook handlers, a non-returning statement confirmed by a second run with a 120 s allowance",
+         "Held on the statements explored (thousands per run, every family in every session state; hundreds of statements held open across timer ticks, all returned).",
          "any result or error value is acceptable"),
  "C05": ("exploration", "independent reference SQL evaluator over the model vs the real parse path + EvaluateSelect on a real database (ORDER BY ties and LIMIT windows judged up to the freedom the property leaves)",
          "Held on the queries explored: thousands of generated single-table queries per run over all clause combinations, all six operators on all types, and every AND/OR shape up to 4 predicates on a truth table.",
